@@ -3,6 +3,7 @@ pub mod op;
 pub mod hmap;
 pub mod lang;
 pub mod builtin;
+pub mod symtab;
 
 /// One operation per line: `<op> <args…>`; the result is one line of canonical text.
 pub fn dispatch(line: &str) -> String {
@@ -21,6 +22,7 @@ pub fn dispatch(line: &str) -> String {
         "eval" => lang::eval(rest),
         "vmrun" => lang::vmrun(rest),
         "builtin" => builtin::run(rest),
+        "symtab" => symtab::run(rest),
         _ => format!("bad-op {}", op),
     }
 }
